@@ -100,7 +100,12 @@ def query_mix(ev, N, m, lo, up, tag):
         ev.GetInverseImage(y)
         ev.GetPreimages(y)
         ev.GetImage((n // 3 + 0.5) / n)
+        mid = y.copy()                 # read once while the object's last answer was about another x
         ev.GetImage(x)
+        if not np.array_equal(mid, want):
+            msgs.append(f"{tag}: the array returned by GetImage({x!r}) and handed to the inverse queries reads {mid.tolist()} "
+                        f"after GetImage was asked about another x (it was {want.tolist()})")
+            return msgs
         if not np.array_equal(y, want):
             msgs.append(f"{tag}: the array returned by GetImage({x!r}) changed after it had been handed to the inverse queries "
                         f"and GetImage was called again ({want.tolist()} -> {y.tolist()})")
